@@ -22,3 +22,28 @@ package signing_bbot
 //@   ghostset before "c.state.phi, err = c.suite.ScalarField().Random(c.prng)": sphi = shk(c.prng)
 //@   loop range(c.ctx.OtherPartiesOrdered())
 //@     invariant c.prng == old(c.prng) && streamOf(shk(c.prng)) == streamOf(old(shk(c.prng))) && rpos(sphi) <= rpos(shk(c.prng))
+
+//@ pure func dOth(c *Cosigner, a Int) Int = seqat(c.ctx.OtherPartiesOrdered(), a, int)
+//@ pure func dOf(c *Cosigner, r3u V, id sharing.ID) []V = res(c.state.bobMul[id].Round4(res(r3u.Get(id), 0).MulR3), 0)
+
+// Round 4 (C01, C04): a partial signature is produced only if, for EVERY other party, both multiplication consistency
+// checks hold ([chi]R_j - Gamma^u_j == [d_0]G and [chi]pk_j - Gamma^v_j == [d_1]G, with d the output of the
+// multiplication with that party) and the public key shares add up to the shard's public key. The partial signature
+// is (R, u, w) with w = m*phi + r_x*v where m is the STANDARD ECDSA digest-to-scalar conversion of the hash of the
+// message under the suite's hash function (the conversion the verifier uses), r_x the x-coordinate of R reduced
+// into the scalar field, u = r(phi+psi)+sum(c_u+d_u), v = sk(phi+psi)+sum(c_v+d_v).
+//@ func (*Cosigner).Round4
+//@   property C01, C04
+//@   ensures err == nil ==> forall a Int :: 0 <= a && a < seqlen(c.ctx.OtherPartiesOrdered()) ==> msgOK(c, r3b, dOth(c, a)) && msgOK(c, r3u, dOth(c, a))
+//@   ensures err == nil ==> forall a Int :: 0 <= a && a < seqlen(c.ctx.OtherPartiesOrdered()) ==> old(c.state.bigR)[dOth(c, a)].ScalarMul(c.state.chi[dOth(c, a)]).Sub(res(r3u.Get(dOth(c, a)), 0).GammaU).Equal(c.suite.Curve().ScalarBaseMul(dOf(c, r3u, dOth(c, a))[0]))
+//@   ensures err == nil ==> forall a Int :: 0 <= a && a < seqlen(c.ctx.OtherPartiesOrdered()) ==> res(r3b.Get(dOth(c, a)), 0).Pk.ScalarMul(c.state.chi[dOth(c, a)]).Sub(res(r3u.Get(dOth(c, a)), 0).GammaV).Equal(c.suite.Curve().ScalarBaseMul(dOf(c, r3u, dOth(c, a))[1]))
+//@   ensures err == nil ==> pk.Equal(c.shard.PublicKey().Value())
+//@   ensures err == nil ==> digest == res(hashing.Hash(c.suite.HashFunc(), message), 0) && m == res(ecdsa.DigestToScalar(c.suite.ScalarField(), digest), 0)
+//@   ensures err == nil ==> rx == res(c.suite.ScalarField().FromWideBytes(res(bigR.AffineX(), 0).Bytes()), 0)
+//@   ensures err == nil ==> u == c.state.r.Mul(c.state.phi.Add(psi)).Add(cudu) && v == c.state.sk.Mul(c.state.phi.Add(psi)).Add(cvdv) && w == m.Mul(c.state.phi).Add(rx.Mul(v))
+//@   ensures err == nil ==> partialSignature == res(dkls23.NewPartialSignature(bigR, u, w), 0)
+//@   loop range(c.ctx.OtherPartiesOrdered())
+//@     invariant forall a Int :: 0 <= a && a < seqlen(c.ctx.OtherPartiesOrdered()) ==> msgOK(c, r3b, dOth(c, a)) && msgOK(c, r3u, dOth(c, a))
+//@     invariant c.state.bigR == old(c.state.bigR) && c.state.chi == old(c.state.chi) && c.state.bobMul == old(c.state.bobMul) && c.suite == old(c.suite) && c.ctx == old(c.ctx)
+//@     invariant forall a Int :: 0 <= a && a < $i ==> old(c.state.bigR)[dOth(c, a)].ScalarMul(c.state.chi[dOth(c, a)]).Sub(res(r3u.Get(dOth(c, a)), 0).GammaU).Equal(c.suite.Curve().ScalarBaseMul(dOf(c, r3u, dOth(c, a))[0]))
+//@     invariant forall a Int :: 0 <= a && a < $i ==> res(r3b.Get(dOth(c, a)), 0).Pk.ScalarMul(c.state.chi[dOth(c, a)]).Sub(res(r3u.Get(dOth(c, a)), 0).GammaV).Equal(c.suite.Curve().ScalarBaseMul(dOf(c, r3u, dOth(c, a))[1]))
